@@ -243,8 +243,13 @@ def soak_configs(rnd, thorough):
         cfgs.append(dict(tg, sampler="RWMH", h=0.8, K=4))
         cfgs.append(dict(tg, sampler="RWMH", h=1.0, vector=[0.5, 1.2, 0.9][:d], K=4))
     rnd.shuffle(cfgs)
+    # "every step size": position updates longer than the box is wide (several bounces per update) on an almost flat box-truncated target
+    flat = {"target": "truncated", "mu": [0.5, 0.4], "var": [1e4, 1e4], "lo": [0.0, 0.0], "hi": [1.0, 0.8]}
+    wide = [dict(flat, sampler="HMC", integrator=i, mass=m, randomize=r, h=h, n=n, K=2, runs=6400, massdiag=[0.5, 2.0], massfull=None)
+            for i, m, r, h, n in (("lf", "unit", False, 2.0, 1), ("3s", "diag", True, 4.0, 1), ("lf", "unit", True, 2.0, 3))]
     if not thorough:
-        return cfgs[:10]
+        return cfgs[:9] + [wide[rnd.randrange(len(wide))]]
+    cfgs = cfgs + wide
     # long runs from exact draws (every state of such a run has the target's law): far more sensitive to a small stationary bias
     trunc = targets[4]
     longs = [dict(trunc, sampler="HMC", integrator=i, mass="diag", randomize=r, h=0.9, n=6, K=400, long=True, runs=640, massdiag=[0.5, 2.0], massfull=None)
